@@ -59,7 +59,36 @@ UCH = universes.Universe(  # chain reached only through imports: several files e
     },
     sources=[[("tmp/r.py", "r")]],
 )
-LOCAL = {"U2D": U2D, "UCH": UCH}
+_G = ("from typing_extensions import TypeGuard, TypeIs\nclass A:\n    a: int = 0\nclass B:\n    b: int = 0\n"
+      "def is_a(x: object) -> {ret}:\n    return True\n")
+_APP = ("from typing import Union\nfrom guards import A, B, is_a\ndef describe(x: Union[A, B]) -> int:\n"
+        "    if is_a(x):\n        return x.a\n    else:\n        return x.b\n")
+UTG = universes.Universe(  # a callee's signature changes only in the KIND of its return annotation (TypeIs / TypeGuard /
+    # bool): callers in another module narrow differently, in both branches
+    name="UTG-typeguard",
+    files={
+        "tmp/guards.py": [_G.format(ret="TypeIs[A]"), _G.format(ret="TypeGuard[A]"), _G.format(ret="bool")],
+        "tmp/app.py": [_APP, _APP + "# touched\n"],
+    },
+    sources=[[("tmp/app.py", "app")]],
+    fixture="tuple.pyi",
+)
+UPR = universes.Universe(  # protocol conformance across modules: the multi-line "Expected:/Got:" notes are re-produced
+    # from merged ASTs after an update
+    name="UPR-protocol",
+    files={
+        "tmp/proto.py": ["from typing import Protocol\nclass P(Protocol):\n    def size(self) -> int: ...\n",
+                         "from typing import Protocol\nclass P(Protocol):\n    def size(self) -> str: ...\n",
+                         "from typing import Protocol\nclass P(Protocol):\n    def size(self, n: int = 0) -> int: ...\n"],
+        "tmp/impl.py": ["class C:\n    def size(self) -> int:\n        return 0\n",
+                        "class C:\n    def size(self) -> str:\n        return ''\n"],
+        "tmp/use.py": ["from proto import P\nfrom impl import C\ndef take(p: P) -> None: ...\ntake(C())\n"
+                       "def inner() -> None:\n    take(C())\n"],
+    },
+    sources=[[("tmp/use.py", "use")]],
+    fixture="tuple.pyi",
+)
+LOCAL = {"U2D": U2D, "UCH": UCH, "UTG": UTG, "UPR": UPR}
 
 
 def U(name: str):
@@ -608,13 +637,15 @@ def run(ctx: Ctx, only: list[str] | None = None) -> Result:
         plan = [("U1", 2, MODES[:2], 1, False), ("U2", 2, MODES[:2], 1, False), ("U2D", 3, MODES[:2], 1, False),
                 ("U3", 2, MODES[:2], 1, False), ("U4b", 3, MODES[:2], 0, False), ("U5", 2, MODES[:2], 1, False),
                 ("U6", 3, MODES[:2], 0, False), ("U8", 2, MODES[:2], 1, False), ("U9", 2, MODES[:2], 1, False),
-                ("UCH", 3, MODES[:2], 0, True),
+                ("UCH", 3, MODES[:2], 0, True), ("UTG", 3, MODES[:2], 1, False),
+                ("UPR", 3, MODES[:2], 1, False),
                 ("U2", 2, MODES[2:], 0, False), ("U9", 2, MODES[2:], 0, False), ("U6", 2, MODES[2:], 0, False)]
     else:
         plan = [("U1", 3, MODES, 1, False), ("U2", 4, MODES, 1, False), ("U2D", 4, MODES, 1, True),
                 ("U3", 4, MODES, 1, False), ("U4", 3, MODES, 1, False), ("U4b", 4, MODES, 1, True),
                 ("U5", 3, MODES, 1, True), ("U6", 4, MODES, 1, False), ("U8", 3, MODES, 1, False),
-                ("U9", 3, MODES, 1, False), ("UCH", 4, MODES, 1, True), ("U10", 3, MODES, 1, True)]
+                ("U9", 3, MODES, 1, False), ("UCH", 4, MODES, 1, True), ("U10", 3, MODES, 1, True),
+                ("UTG", 4, MODES, 1, True), ("UPR", 4, MODES, 1, True)]
     if only:
         plan = [p for p in plan if p[0] in only]
     items: list[tuple] = []
